@@ -46,7 +46,74 @@ func (g *gen) nk() int {
 	for n < mk && g.r.Intn(3) == 0 {
 		n++
 	}
+	if n == mk && g.r.Intn(4) == 0 {
+		n += 1 + g.r.Intn(4) // now and then five to eight operands
+	}
 	return n
+}
+
+// spine generates a deep, narrow tree: at every level one operand continues the spine
+// (at a random position), the others are leaves or shallow trees.  Deep nesting reaches
+// the stack classes (8 / 16 slots) and long jump chains that bushy random trees never do.
+func (g *gen) spine(typ string, d int) *Tree {
+	if d <= 0 {
+		t, _ := g.leaf(typ)
+		return t
+	}
+	r := g.r
+	small := func(t string) *Tree { x, _ := g.tree(t, r.Intn(2)); return x }
+	place := func(name string, spineKid *Tree, others ...*Tree) *Tree {
+		kids := append([]*Tree{}, others...)
+		pos := r.Intn(len(kids) + 1)
+		kids = append(kids[:pos], append([]*Tree{spineKid}, kids[pos:]...)...)
+		return op(name, kids...)
+	}
+	switch typ {
+	case "i":
+		switch r.Intn(4) {
+		case 0:
+			return place(g.pick("+", "add"), g.spine("i", d-1), small("i"))
+		case 1:
+			return place(g.pick("+", "add"), g.spine("i", d-1), small("i"), small("i"))
+		case 2:
+			// if: spine in the condition, the true or the false branch
+			switch r.Intn(3) {
+			case 0:
+				return op("if", g.spine("b", d-1), small("i"), small("i"))
+			case 1:
+				return op("if", small("b"), g.spine("i", d-1), small("i"))
+			}
+			return op("if", small("b"), small("i"), g.spine("i", d-1))
+		}
+		return place(g.pick("-", "sub"), g.spine("i", d-1), small("i"))
+	}
+	switch r.Intn(7) {
+	case 0, 1:
+		n := 1 + r.Intn(3)
+		others := make([]*Tree, n)
+		for i := range others {
+			others[i] = small("b")
+		}
+		return place(g.pick("and", "&&", "&"), g.spine("b", d-1), others...)
+	case 2, 3:
+		n := 1 + r.Intn(3)
+		others := make([]*Tree, n)
+		for i := range others {
+			others[i] = small("b")
+		}
+		return place(g.pick("or", "||", "|"), g.spine("b", d-1), others...)
+	case 4:
+		switch r.Intn(3) {
+		case 0:
+			return op("if", g.spine("b", d-1), small("b"), small("b"))
+		case 1:
+			return op("if", small("b"), g.spine("b", d-1), small("b"))
+		}
+		return op("if", small("b"), small("b"), g.spine("b", d-1))
+	case 5:
+		return op(g.pick("not", "!"), g.spine("b", d-1))
+	}
+	return place(g.pick(">", "gt", "<=", "le"), g.spine("i", d-1), small("i"))
 }
 
 const boundMax = int64(1) << 20
@@ -81,6 +148,10 @@ func (g *gen) leaf(typ string) (*Tree, int64) {
 		return vr([]string{"n", "m"}[g.r.Intn(2)]), 3
 	case "s":
 		if isConst || !g.c.Strings {
+			if g.r.Intn(8) == 0 {
+				// strings that spell internal markers, keywords and sentinels
+				return cst([]string{"fi", "if", "DNE", "true", "and"}[g.r.Intn(5)]), 1
+			}
 			return cst([]string{"a", "b", ""}[g.r.Intn(3)]), 1
 		}
 		return vr("s"), 1
@@ -90,7 +161,7 @@ func (g *gen) leaf(typ string) (*Tree, int64) {
 		}
 		return vr("l"), 1
 	case "sl":
-		return cst([][]string{{"a", "b"}, {}, {"b"}, {"", "a"}}[g.r.Intn(4)]), 1
+		return cst([][]string{{"a", "b"}, {}, {"b"}, {"", "a"}, {"fi", "a"}}[g.r.Intn(5)]), 1
 	}
 	panic("leaf type " + typ)
 }
